@@ -412,6 +412,59 @@ def alt_miss(repo):
     return action
 
 
+def nary(repo):
+    """AND(*ops) / OR(*ops): (operator of the SQLOp built, helper called on the tail)"""
+    tree = parse(repo, 'sqlobject/sqlbuilder.py')
+    out = {}
+    for name in ('AND', 'OR'):
+        fn = find_func(tree, name)
+        src = ast.unparse(fn)
+        found = None
+        for op in ('AND', 'OR'):
+            for tail in ('AND', 'OR'):
+                want = ("def %s(*ops):\n    if not ops:\n        return None\n    op1 = ops[0]\n    ops = ops[1:]\n"
+                        "    if ops:\n        return SQLOp('%s', op1, %s(*ops))\n    else:\n        return op1" % (name, op, tail))
+                if src == want:
+                    found = ('.' + op.lower(), '.' + tail.lower())
+        if found is None:
+            raise ExtractError('%s(*ops) changed shape:\n%s' % (name, src))
+        out[name] = found
+    ops = find_class(tree, 'SQLExpression')
+    for meth, op in (('__and__', 'AND'), ('__or__', 'OR')):
+        got = strip_doc(find_func(ops, meth).body)
+        if len(got) != 1 or not _same_stmt(got[0], "return SQLOp('%s', self, other)" % op):
+            raise ExtractError('SQLExpression.%s changed' % meth)
+    return out
+
+
+def iter_guard(repo):
+    tree = parse(repo, 'sqlobject/dbconnection.py')
+    fn = find_func(find_class(tree, 'Iteration'), 'next')
+    body = strip_doc(fn.body)
+    if not _same_stmt(body[0], 'result = self.cursor.fetchone()'):
+        raise ExtractError('Iteration.next: first statement changed')
+    guards = [st for st in body if isinstance(st, ast.If) and len(st.body) == 1
+              and isinstance(st.body[0], ast.Return)
+              and (st.body[0].value is None or (isinstance(st.body[0].value, ast.Constant) and st.body[0].value.value is None))]
+    if len(guards) != 1 or guards[0].orelse:
+        raise ExtractError('Iteration.next: expected exactly one `return None` guard')
+    t = guards[0].test
+    if _same(t, 'result[0] is None'):
+        g = '.isNone'
+    elif _same(t, 'not result[0]'):
+        g = '.falsy'
+    else:
+        raise ExtractError('Iteration.next: unknown guard %s' % ast.unparse(t))
+    rest = ast.unparse(fn)
+    if "obj = self.select.sourceClass.get(result[0], selectResults=result[1:], connection=self.dbconn)" not in rest \
+            or "if result is None:\n        self._cleanup()\n        raise StopIteration" not in rest:
+        raise ExtractError('Iteration.next: body changed')
+    it = strip_doc(find_func(find_class(parse(repo, 'sqlobject/sresults.py'), 'SelectResults'), '__iter__').body)
+    if len(it) != 1 or not _same_stmt(it[0], 'return iter(list(self.lazyIter()))'):
+        raise ExtractError('SelectResults.__iter__ changed')
+    return g
+
+
 def _b(x):
     return 'true' if x else 'false'
 
@@ -426,6 +479,8 @@ def extract(repo):
     unlimited, order_none = acc_select(repo)
     one = get_one(repo)
     miss = alt_miss(repo)
+    nr = nary(repo)
+    guard = iter_guard(repo)
     L = [HEADER % 'query', 'import SqlObjVerif.Model.QuerySyn', '', 'namespace SqlObjVerif.Query.Extracted', '']
     L += ['/-- `_SO_columnClause`: operator used when the keyword value is None / is a value -/',
           'def clauseOpNone : CondOp := %s' % none_op,
@@ -462,5 +517,10 @@ def extract(repo):
           'def getOneBranches : List (OneGuard × OneAction) := [%s]' % ', '.join('(%s, %s)' % ga for ga in one), '',
           '/-- `_SO_fetchAlternateID`: what happens when no row matched -/',
           'def altMiss : MissAction := %s' % miss, '',
+          '/-- `AND(*ops)` / `OR(*ops)`: (connective of the SQLOp built, helper applied to the tail) -/',
+          'def andFn : BoolOp × BoolOp := (%s, %s)' % nr['AND'],
+          'def orFn : BoolOp × BoolOp := (%s, %s)' % nr['OR'], '',
+          '/-- `Iteration.next`: when a fetched row is returned as None -/',
+          'def iterNullGuard : IdGuard := %s' % guard, '',
           'end SqlObjVerif.Query.Extracted']
     return '\n'.join(L) + '\n'
